@@ -120,6 +120,7 @@ func stubClientQuit(c *smtp.Client) error { return nil }
 var c09Rcpts = []string{
 	"plain@example.org",
 	"test@тест.example.org", // IDN domain: sent as A-label when SMTPUTF8 is missing
+	"тест@example.org",      // non-ASCII local part: not convertible, refused locally without SMTPUTF8
 	"Upper@Example.ORG",
 	"other@example.org",
 }
